@@ -6,7 +6,8 @@
    oracle are NOT theorems here: they are measured by checks/c19.py and labelled as tests. *)
 Require Import List Arith Lia Bool ZArith QArith Qround Qcanon Permutation.
 From TK Require Import Mat_Sums Mat_Core Mat_Qc Spe_Model Spe_Spec Spe_Proof_Lists Spe_Proof_Index
-     Spe_Proof_Coord Spe_Proof_Closed Spe_Run_Model Spe_Proof_Run Spe_Des_Model Spe_Proof_Des.
+     Spe_Proof_Coord Spe_Proof_Closed Spe_Run_Model Spe_Proof_Run Spe_Des_Model Spe_Proof_Des
+     Spe_Sched_Model Spe_Proof_Sched.
 Import ListNotations.
 Local Open Scope nat_scope.
 
@@ -598,3 +599,138 @@ Print Assumptions uniform_random_draw_in_range.
 
 Example uniform_random_nonvacuous : 0 < 3 /\ (0 <= 2147483647 < Z.pos 2147483648)%Z.
 Proof. split; [lia|split; [lia|reflexivity]]. Qed.
+
+(* ==== Wave 3: the iteration schedule (max_iteration = 0 is "automatic": 2000 + floor(0.04 N^2), x 3 local) ==== *)
+(* for EVERY max_iteration (0 included), both strategies, every N: the loop bound and the divisor of
+   `lambda = lambda - lambda / max_iter` are the same number, and it is >= 1 (>= 2000 when automatic) *)
+Theorem spe_schedule_ok : forall (global : bool) (N m : nat),
+  schedule_ok (spe_schedule global N m) /\
+  (m = 0 -> sc_div (spe_schedule global N m) = auto_iterations global N /\
+            2000 <= sc_div (spe_schedule global N m)) /\
+  (m <> 0 -> sc_div (spe_schedule global N m) = m).
+Proof. exact spe_schedule_ok_proof. Qed.
+Print Assumptions spe_schedule_ok.
+
+Theorem auto_iterations_local_is_triple : forall N, auto_iterations false N = 3 * auto_iterations true N.
+Proof. exact auto_iterations_local_is_triple_proof. Qed.
+Print Assumptions auto_iterations_local_is_triple.
+
+(* REGRESSION (seeded change C19_3): loop bound from a new constant, divisor still the parameter *)
+Theorem spe_schedule_split_ok_iff : forall (global : bool) (N m : nat),
+  schedule_ok (spe_schedule_split global N m) <-> m <> 0.
+Proof. exact spe_schedule_split_ok_iff_proof. Qed.
+Print Assumptions spe_schedule_split_ok_iff.
+
+Theorem spe_schedule_split_refuted :
+  exists global N m, ~ schedule_ok (spe_schedule_split global N m) /\
+                     2000 <= sc_loop (spe_schedule_split global N m) /\
+                     sc_div (spe_schedule_split global N m) = 0.
+Proof. exact spe_schedule_split_refuted_proof. Qed.
+Print Assumptions spe_schedule_split_refuted.
+
+(* the decision procedure the check runs on the observed number of shuffles *)
+Theorem schedule_check_sound : forall (global : bool) (N m shuffles : nat),
+  schedule_check global N m shuffles = true <-> shuffles = spe_iterations global N m.
+Proof. exact schedule_check_ok_proof. Qed.
+Print Assumptions schedule_check_sound.
+
+(* binary64 evaluation of floor(0.04 * N * N) (two roundings, ties to even) *)
+Theorem sched_q_small : forall N, N <= 204 -> sched_q N = N * N / 25.
+Proof. exact sched_q_small_proof. Qed.
+Print Assumptions sched_q_small.
+Example sched_q_small_nonvacuous : 30 <= 204 /\ sched_q 30 = 36.
+Proof. split; [lia|vm_compute; reflexivity]. Qed.
+
+Theorem sched_q_double_rounding : sched_q 205 = 1680 /\ 205 * 205 / 25 = 1681.
+Proof. exact sched_q_double_rounding_proof. Qed.
+Print Assumptions sched_q_double_rounding.
+
+Theorem auto_iterations_small : forall N, N <= 204 ->
+  auto_iterations true N = 2000 + N * N / 25 /\ auto_iterations false N = 3 * (2000 + N * N / 25).
+Proof. exact auto_iterations_small_proof. Qed.
+Print Assumptions auto_iterations_small.
+
+(* lambda over the whole run, T = the divisor of the shipped schedule *)
+Theorem lambda_schedule_every_max_iteration : forall (global : bool) (N m t : nat),
+  let T := sc_div (spe_schedule global N m) in
+  sc_loop (spe_schedule global N m) = T /\ 1 <= T /\
+  (0 <= lam_seq T t)%Q /\ (lam_seq T t <= 1)%Q /\ (lam_seq T (S t) <= lam_seq T t)%Q /\
+  (1 - inject_Z (Z.of_nat t) / inject_Z (Z.of_nat T) <= lam_seq T t)%Q /\
+  (lam_seq T t * (1 + inject_Z (Z.of_nat t) / inject_Z (Z.of_nat T)) <= 1)%Q /\
+  (lam_seq T T <= 1 # 2)%Q.
+Proof. exact lambda_schedule_all_proof. Qed.
+Print Assumptions lambda_schedule_every_max_iteration.
+
+Theorem lambda_step : forall T t,
+  (lam_seq T (S t) == lam_seq T t * (1 - / inject_Z (Z.of_nat T)))%Q.
+Proof. exact lam_step. Qed.
+Print Assumptions lambda_step.
+
+Theorem lambda_schedule_automatic : forall (global : bool) (N t : nat),
+  let T := sc_div (spe_schedule global N 0) in
+  T = auto_iterations global N /\ 2000 <= T /\ sc_loop (spe_schedule global N 0) = T /\
+  (0 < lam_seq T t)%Q /\ (lam_seq T t <= 1)%Q /\ (lam_seq T (S t) < lam_seq T t)%Q /\
+  (2 * t <= T -> (1 # 2 <= lam_seq T t)%Q) /\ (lam_seq T T <= 1 # 2)%Q.
+Proof. exact lambda_schedule_automatic_proof. Qed.
+Print Assumptions lambda_schedule_automatic.
+
+Theorem pair_update_scheduled : forall (global : bool) (N m t : nat) (tol r d : Q),
+  (0 <= d)%Q -> (0 < tol)%Q -> (0 <= r)%Q ->
+  let lam := lam_seq (sc_div (spe_schedule global N m)) t in
+  let d' := (d * (1 + lam * (r - d - tol) / (d + tol)))%Q in
+  (0 < d + tol)%Q /\ (0 <= 1 + lam * (r - d - tol) / (d + tol))%Q /\
+  ((d + tol <= r)%Q -> (d <= d')%Q /\ (d' <= r)%Q) /\
+  ((r <= d + tol)%Q -> (r * d / (d + tol) <= d')%Q /\ (d' <= d)%Q).
+Proof. exact pair_update_scheduled_proof. Qed.
+Print Assumptions pair_update_scheduled.
+Example pair_update_scheduled_nonvacuous : (0 <= 1)%Q /\ (0 < 1 # 1000000000)%Q /\ (0 <= 2)%Q.
+Proof. repeat split; discriminate. Qed.
+
+(* the run as a function of max_iteration *)
+Theorem spe_embedding_full_is_run : forall (F : Type) (Fo : FieldOps F)
+    old global nbrs nupd N m its (norms : list (list F)) (tol alpha : F) (R : nat -> nat -> F) (Y0 : pts),
+  length its = spe_iterations global N m ->
+  spe_embedding_full old global nbrs nupd N m its norms tol alpha R Y0 =
+  spe_embedding_run old global nbrs nupd N its norms tol alpha R Y0.
+Proof. exact (@spe_embedding_full_is_run_proof). Qed.
+Print Assumptions spe_embedding_full_is_run.
+
+Theorem spe_embedding_full_needs_schedule : forall (F : Type) (Fo : FieldOps F)
+    old global nbrs nupd N m its (norms : list (list F)) (tol alpha : F) (R : nat -> nat -> F) (Y0 Y : pts),
+  spe_embedding_full old global nbrs nupd N m its norms tol alpha R Y0 = Ok Y ->
+  length its = spe_iterations global N m /\ 1 <= length its.
+Proof. exact (@spe_embedding_full_needs_schedule_proof). Qed.
+Print Assumptions spe_embedding_full_needs_schedule.
+
+Theorem spe_full_centroid_global : forall (F : Type) (Fo : FieldOps F) (Ff : IsField F)
+    (old : bool) nbrs nupd N m its (norms : list (list F)) (tol alpha : F) (R : nat -> nat -> F) (Y0 : pts) t,
+  length its = spe_iterations true N m ->
+  Forall (fun i => is_perm N (it_from i)) its ->
+  exists Y, spe_embedding_full old true nbrs nupd N m its norms tol alpha R Y0 = Ok Y /\
+            sumn N (fun i => Y i t) = sumn N (fun i => Y0 i t).
+Proof. exact (@spe_full_centroid_global_proof). Qed.
+Print Assumptions spe_full_centroid_global.
+
+Theorem spe_full_centroid_local : forall (F : Type) (Fo : FieldOps F) (Ff : IsField F)
+    nbrs nupd N m its (norms : list (list F)) (tol alpha : F) (R : nat -> nat -> F) (Y0 : pts) t,
+  let k := length (nth 0 nbrs []) in
+  let nu := Nat.min nupd (N / 2) in
+  length its = spe_iterations false N m ->
+  0 < N -> 0 < k -> nbrs_ok N k nbrs -> nbrs_below N nbrs ->
+  Forall (fun i => is_perm N (it_from i) /\ us_ok nu (it_us i)) its ->
+  exists Y, spe_embedding_full false false nbrs nupd N m its norms tol alpha R Y0 = Ok Y /\
+            sumn N (fun i => Y i t) = sumn N (fun i => Y0 i t).
+Proof. exact (@spe_full_centroid_local_proof). Qed.
+Print Assumptions spe_full_centroid_local.
+
+(* non-vacuity: the witness streams of local_indices_refuted cover exactly the schedule of max_iteration = 3;
+   and an automatic schedule is a list of auto_iterations answers *)
+Example spe_full_nonvacuous :
+  length w_its = spe_iterations false 6 3 /\
+  length (repeat {| it_from := [0; 1; 2; 3]; it_us := [] |} (auto_iterations true 4)) = spe_iterations true 4 0 /\
+  Forall (fun i => is_perm 4 (it_from i)) (repeat {| it_from := [0; 1; 2; 3]; it_us := [] |} (auto_iterations true 4)).
+Proof.
+  split; [reflexivity|]. split; [apply repeat_length|].
+  apply Forall_forall. intros i Hi. apply repeat_spec in Hi. subst i. cbn [it_from].
+  apply is_perm_b_ok. reflexivity.
+Qed.
